@@ -26,6 +26,8 @@ Definition entries : list (string * (sexp -> option sexp)) := [
   ("C18.verify", ImportBoss.run_verify);
   ("C18.closure", ImportBoss.run_closure);
   ("C18.allimports", ImportBoss.run_allimports);
+  ("C18.incoming", ImportBoss.run_incoming);
+  ("C18.history", ImportBoss.run_history);
   ("C04.exec", Exec.run_exec);
   ("C13.exec", Exec.run_exec);
   ("C13.tracker", Exec.run_tracker);
